@@ -126,6 +126,12 @@ def judge_perm(case):
     return None
 
 
+def has_empty(n):
+    if n[0] == 'sc':
+        return n[2] == ''
+    return any(has_empty(c) for c in ([c for _, c in n[2]] if n[0] == 'map' else n[2]))
+
+
 def mark(n, rng, tag, p=0.25):
     """put `tag` on random untagged nodes (never on value-less scalars)"""
     t = n[1]
@@ -221,6 +227,12 @@ def run(rep, tier, rng):
     for a, b in (("{a: !force [1]}", "{a: [7, 8, 9]}"), ("{a: [1]}", "{a: !weak [7, 8, 9]}"), ("{t: {s: !force [w], lr: 1}}", "{t: {s: [a, b, c, d]}}"),
                  ("{a: !force {l: [1]}}", "{a: {l: [7, 8, 9]}}"), ("{a: !weak [1]}", "{a: [7, 8, 9]}")):
         hist.append([parse_doc(a), parse_doc(b)])
+    # value-less entries (`key:`) reach a container as ONE shared None; a tagged container builds its children through a memo keyed by object identity
+    E = lambda: ('sc', None, '')
+    hist.append([('map', None, [('a', ('sc', None, '1')), ('extra', ('map', None, [('seed', E()), ('tag', E()), ('n', ('sc', None, '3'))]))])])
+    hist.append([('map', None, [('extra', ('map', None, [('seed', E()), ('tag', E()), ('n', ('sc', None, '3'))])), ('o', ('map', None, [('p', E()), ('q', E()), ('r', E())]))]),
+                 ('map', None, [('extra', ('map', None, [('n', ('sc', None, '4')), ('u', E()), ('v', E())]))])])
+    hist.append([('map', None, [('extra', ('map', None, [('seed', E()), ('tag', E())]))]), ('map', None, [('extra', ('map', '!del', [('z', ('sc', None, '1'))]))])])
     show = lambda docs: [gen.render(d) for d in docs]
     for docs in hist:
         tags = sum(len(gen.tag_hist(d)) for d in docs)
@@ -238,6 +250,8 @@ def run(rep, tier, rng):
     for docs in hist:
         for tag in ('!unsafe', '!new'):
             flg.append(dict(docs=docs, marked=[mark(d, rng, tag) for d in docs], tag=tag))
+            if any(has_empty(d) for d in docs):
+                flg.append(dict(docs=docs, marked=[mark(d, rng, tag, p=1.0) for d in docs], tag=tag))
     base.run_oracle(rep, 'C15', '!unsafe / !new markers are data-neutral', flg, judge_flag, show=lambda c: dict(docs=show(c['docs']), marked=show(c['marked']), tag=c['tag']))
 
 
